@@ -584,15 +584,13 @@ func ruleC16TokenPos(p *Prog, a *Anchors, r *Report) {
 			continue
 		}
 		got := map[string]bool{}
-		for _, b := range f.Blocks {
-			for _, in := range b.Instrs {
-				if st, ok := in.(*ssa.Store); ok {
-					if fa, ok := st.Addr.(*ssa.FieldAddr); ok {
-						dst := fieldName(fa.X.Type(), fa.Field)
-						if _, nn, src := fieldLoadBase(st.Val); nn != nil && nn.Obj().Name() == "lexer" && startOf[src] == dst {
-							got[dst] = true
-						}
-					}
+		// the stores of f itself, and of a lexer method f always ends up calling on the same lexer (emit may reset the
+		// start position by calling ignore())
+		for _, st := range u3ResetStores(p, f, 2) {
+			if fa, ok := st.Addr.(*ssa.FieldAddr); ok {
+				dst := fieldName(fa.X.Type(), fa.Field)
+				if _, nn, src := fieldLoadBase(st.Val); nn != nil && nn.Obj().Name() == "lexer" && startOf[src] == dst {
+					got[dst] = true
 				}
 			}
 		}
